@@ -89,7 +89,7 @@ func c17Entries(list string) []c17Entry {
 				g.PerMessageBurnLimitList = append(g.PerMessageBurnLimitList, cctptypes.PerMessageBurnLimit{Denom: d, Amount: math.NewInt(a)})
 			}}
 		}
-		return []c17Entry{mk("uusdc", 5), mk("uusdc", 7), mk("uatom", 0), mk("uosmo", 5)} // a limit of 0 closes the denom: it must round-trip too
+		return []c17Entry{mk("uusdc", 5), mk("uusdc", 7), mk("uatom", 0), mk("UUSDC", 9)} // a zero limit, and a denom differing from another only in case (a different key): both must round-trip
 	case "pairs":
 		mk := func(d uint32, t []byte, l string) c17Entry {
 			return c17Entry{pairKey(d, t), func(g *cctptypes.GenesisState) {
@@ -103,7 +103,7 @@ func c17Entries(list string) []c17Entry {
 				g.UsedNoncesList = append(g.UsedNoncesList, cctptypes.Nonce{SourceDomain: d, Nonce: n})
 			}}
 		}
-		return []c17Entry{mk(0, 1), mk(0, 1), mk(0, 2), mk(1, 1)}
+		return []c17Entry{mk(0, 1), mk(0, 1), mk(0xFF000002, 2), mk(1<<32-1, 1<<64-1)}
 	case "messengers":
 		mk := func(d uint32, a []byte) c17Entry {
 			return c17Entry{fmt.Sprint(d), func(g *cctptypes.GenesisState) {
